@@ -31,6 +31,7 @@
 #include <signal.h>
 #include <stdarg.h>
 #include <stdio.h>
+#include <time.h>
 #include <string.h>
 #include <sys/wait.h>
 #include <unistd.h>
@@ -259,7 +260,25 @@ op_set(char** tok)
         v[i] = strtoull(x, 0, 10);
     }
     struct SimulatedCamera* self = containerof(g_cam, struct SimulatedCamera, camera);
-    if (self->streamer.is_running || v[3] > 255 || v[7] > 0xffffffffull || v[8] > 0xffffffffull) {
+    if (!(parse_trig(tok, &st.input_triggers.acquisition_start) && parse_trig(tok, &st.input_triggers.frame_start) &&
+          parse_trig(tok, &st.input_triggers.exposure) && parse_trig(tok, &st.output_triggers.exposure) &&
+          parse_trig(tok, &st.output_triggers.frame_start) && parse_trig(tok, &st.output_triggers.trigger_wait))) {
+        printf("bad-op\n");
+        return;
+    }
+    int parked = 0;
+    if (self->streamer.is_running && v[3] <= 255 && v[7] <= 0xffffffffull && v[8] <= 0xffffffffull) {
+        /* a set on a started camera is within the quantifier only while the streamer is parked waiting for a software
+         * trigger and the new settings keep that trigger enabled (otherwise set races with the renderer) */
+        struct CameraProperties cur;
+        g_cam->get(g_cam, &cur);
+        if (cur.input_triggers.frame_start.enable && st.input_triggers.frame_start.enable) {
+            struct timespec ts = { 0, 30 * 1000 * 1000 };
+            nanosleep(&ts, 0); /* let the streamer reach its wait (after start, or after the frame it has just published) */
+            parked = 1;
+        }
+    }
+    if ((self->streamer.is_running && !parked) || v[3] > 255 || v[7] > 0xffffffffull || v[8] > 0xffffffffull) {
         /* outside the quantifier (set races with the running streamer / value not representable) */
         printf("illformed | ");
         digest();
@@ -275,12 +294,6 @@ op_set(char** tok)
     st.offset.y = (uint32_t)v[6];
     st.shape.x = (uint32_t)v[7];
     st.shape.y = (uint32_t)v[8];
-    if (!(parse_trig(tok, &st.input_triggers.acquisition_start) && parse_trig(tok, &st.input_triggers.frame_start) &&
-          parse_trig(tok, &st.input_triggers.exposure) && parse_trig(tok, &st.output_triggers.exposure) &&
-          parse_trig(tok, &st.output_triggers.frame_start) && parse_trig(tok, &st.output_triggers.trigger_wait))) {
-        printf("bad-op\n");
-        return;
-    }
     struct CameraProperties before, after;
     struct ImageShape sbefore, safter;
     g_cam->get(g_cam, &before);
